@@ -726,7 +726,35 @@ def _rvalue_operands(rv):
     return []
 
 
-def _slice(self, start_operands, control=True, start_bb=None):
+def _mut_borrow_calls(self):
+    """local L -> list of call terminators that receive `&mut L` (directly or via a reborrow temp)."""
+    if getattr(self, "_mbc", None) is not None:
+        return self._mbc
+    tmp_of = {}  # temp local -> borrowed local
+    for blk in self.blocks:
+        for st in blk["stmts"]:
+            if st["k"] == "assign" and st["rv"]["k"] in ("ref", "rawptr") and st["rv"].get("bk") in ("mut", "Mut") and not st["pl"]["p"]:
+                src = st["rv"]["pl"]
+                tmp_of[st["pl"]["l"]] = src["l"]
+    # resolve chains (reborrows of temps)
+    def root(l, d=0):
+        while l in tmp_of and d < 10 and not self.local_name(l):
+            l = tmp_of[l]
+            d += 1
+        return l
+    out = defaultdict(list)
+    for bi, blk in enumerate(self.blocks):
+        t = blk["term"]
+        if t["k"] != "call":
+            continue
+        for a in t["args"]:
+            if a["k"] in ("copy", "move") and a["pl"]["l"] in tmp_of:
+                out[root(a["pl"]["l"])].append((bi, t))
+    self._mbc = out
+    return out
+
+
+def _slice(self, start_operands, control=True, start_bb=None, mut_flows=False):
     """Flow-insensitive backward slice.
 
     Returns dict with:
@@ -806,10 +834,20 @@ def _slice(self, start_operands, control=True, start_bb=None):
                 for a in t["args"]:
                     add_operand(a)
                 add_bb_control(d[1])
-        # writes through &mut borrows of this local passed to calls: conservative, ignored
+        if mut_flows:
+            # writes through `&mut l` passed to calls: every other argument may flow into l
+            for (bi, t) in self.mut_borrow_calls().get(l, []):
+                c = t["callee"]
+                if "path" in c:
+                    res["calls"].add(c["path"])
+                    res["callees"].append(c)
+                for a in t["args"]:
+                    add_operand(a)
+                add_bb_control(bi)
     return res
 
 
 Body.control_deps = _control_deps
 Body.control_deps_trans = _control_deps_trans
 Body.slice = _slice
+Body.mut_borrow_calls = _mut_borrow_calls
